@@ -17,7 +17,7 @@ allocation invariant; it holds in the empty state and is preserved by every oper
 namespace PdeVerif.Heap
 
 section
-variable {K : Type} [Add K] [Sub K] [Mul K] [Div K] [Neg K] [NatCast K]
+variable {K : Type} [Add K] [Sub K] [Mul K] [Div K] [Neg K] [NatCast K] [DCast K]
 variable {G : List Grid}
 
 /-! ### histories -/
@@ -553,15 +553,17 @@ theorem inplace_touches_only_valid_cells {s s' : State K} (hwf : WF s) {bop : Bi
 
 /-! ### values of copies -/
 
-/-- right after `f.copy()` of a field the copy reads the same values as the original -/
+/-- right after `f.copy(dtype=dt)` of a field the copy reads the values of the original, every
+cell (ghost cells included) converted to `dt`; without `dtype` exactly the values of the original -/
 theorem copy_reads_equal {s s' : State K} (hwf : WF s) {h : Nat} {o : Obj} {dt : Option DType}
     (ho : s.objs[h]? = some o) (hc : o.cls ≠ .coll)
-    (hs : step G s (.copy h dt) = .ok s') : s'.denote s.objs.length = s.denote h := by
+    (hs : step G s (.copy h dt) = .ok s') :
+    s'.denote s.objs.length = castCells dt (s.denote h) := by
   simp only [step] at hs
   unfold getObj at hs
   rw [ho] at hs
   obtain ⟨_, _, hf⟩ := eff_copyAny hwf hs
-  obtain ⟨d, rfl⟩ := hf hc
+  obtain rfl := hf hc
   unfold State.denote
   rw [copyField, allocObj_new, ho]
   simp only [State.allocObj, Store.readView, Store.alloc, Store.next]
@@ -605,6 +607,9 @@ theorem binary_op_pure_history (ops : List (Op K)) {s' : State K} {bop : BinOp} 
 end
 
 /-! ### non-vacuity: concrete histories (values in `Int`) -/
+
+/-- the examples use integers; no conversion loses anything -/
+instance : DCast Int := ⟨fun _ x => x⟩
 
 /-- a 1-d grid with two cells (padded: ghost, cell, cell, ghost) -/
 def exGrid : List Grid := [⟨[false, true, true, false], 1⟩]
